@@ -106,6 +106,7 @@ def _pack_with_annotated_serialization_strategy(
     setattr(spec.attrs, overridden_fn, strategy.serialize)
     new_spec = spec.copy(
         type=value_type,
+        annotated_type=None,
         expression=(
             f"{spec.self_attrs_name}.{overridden_fn}({spec.expression})"
         ),
@@ -120,6 +121,7 @@ def _pack_with_annotated_serialization_strategy(
     return PackerRegistry.get(
         spec.copy(
             type=value_type,
+            annotated_type=None,
             expression=(
                 f"{spec.self_attrs_name}.{overridden_fn}({spec.expression})"
             ),
